@@ -47,6 +47,7 @@ func runC11(c *Ctx) {
 		rs     *RawStream
 		closed  bool // closed by the peer
 		stalled bool // the peer stopped reading it
+		resumed bool // opened with Last-Event-ID: its handler writes a resumption notice of its own
 	}
 	var streams []*stream
 	var current *stream
@@ -87,7 +88,8 @@ func runC11(c *Ctx) {
 				opening++
 				n := len(streams) + 1
 				hdr := withSession(map[string]string{"Accept": "text/event-stream"}, sid)
-				if op.Arg == 2 && n > 1 {
+				resumed := op.Arg == 2 && n > 1
+				if resumed {
 					// a reconnect that asks for resumption: the server writes a notice of its own on
 					// the new stream while it is being established
 					hdr["Last-Event-ID"] = fmt.Sprintf("evt-%d", n)
@@ -100,7 +102,7 @@ func runC11(c *Ctx) {
 					s.Violate("C11|open-failed", "GET #%d failed: status %v err %v", n, rs, err)
 					return
 				}
-				st := &stream{n: n, rs: rs}
+				st := &stream{n: n, rs: rs, resumed: resumed}
 				streams = append(streams, st)
 				current = st
 			case "close-current":
@@ -159,7 +161,25 @@ func runC11(c *Ctx) {
 	if peerDone {
 		for i, st := range streams {
 			if st.stalled && i+1 < len(streams) && !st.closed && !st.rs.Conn.Done() {
-				s.Violate("C11|old-stream-not-closed|stalled", "stream #%d (which the peer stopped reading, a send is blocked in a write to it) is still being served although stream #%d was opened after it", st.n, streams[i+1].n)
+				// told apart: is a newer stream stalled as well?  Then a write of the old stream's
+				// handler that is routed to the session's current stream (the resumption notice)
+				// shares that stream's back-pressure - a different history with a different cause
+				sig := "C11|old-stream-not-closed|stalled"
+				what := "a send is blocked in a write to it"
+				if st.resumed {
+					// its handler writes a resumption notice itself, before it ever waits for the end
+					// of the stream: a history of its own (known finding)
+					sig += "|resumption"
+					what = "it had asked for resumption: its handler writes the notice itself"
+				}
+				for _, later := range streams[i+1:] {
+					if later.stalled && !later.closed {
+						sig += "|successor-stalled-too"
+						what = fmt.Sprintf("and so did it stop reading the newer stream #%d", later.n)
+						break
+					}
+				}
+				s.Violate(sig, "stream #%d (which the peer stopped reading, %s) is still being served although stream #%d was opened after it", st.n, what, streams[i+1].n)
 			}
 		}
 	}
